@@ -311,6 +311,11 @@ public:
             k[QStringLiteral("scramIter")] = r.pick(QVector<int> { 1, 2, 3, 64 });
         }
         k[QStringLiteral("saltLen")] = r.range(1, 64);
+        {
+            // extension attributes after the iteration count (own stream: the other draws of a seed stay what they were)
+            Prng re(derive(seed, "c06ext"));
+            k[QStringLiteral("scramExt")] = re.chance(0.15) ? (qint64)re.range(1, 3) : 0;
+        }
         k[QStringLiteral("scramFinalInSuccess")] = r.chance(0.35);
         k[QStringLiteral("autoReconnect")] = 0;
         // the server's message sequence
